@@ -682,6 +682,10 @@ func (ex *Exec) applyContract(fc *FuncContract, fn *ssa.Function, cc *ssa.CallCo
 		if err != nil {
 			unsup("contract %s requires: %v", calleeDisp, err)
 		}
+		// (a violated precondition of a callee marked `precondition-panics`
+		// is a run-time panic for some inputs only — e.g. hex.Decode panics
+		// only if enough leading bytes are hex digits — so it is judged like
+		// any other precondition, not by expecting a panic in the replay)
 		ex.addObl("pre:"+calleeDisp, rq.Label, r, t, cc.Pos(), rq.Text, false)
 		if at, err := pre.Bool(rq.E); err == nil {
 			c.assume(imp(r, at))
